@@ -7,7 +7,7 @@ import wire
 from props.common import quiet_ccp, REPO
 
 ID = "C20"
-LEAN_MODULES = ["Ccp.Props.C20"]
+LEAN_MODULES = ["Ccp.Props.C20", "Ccp.Props.RxC20"]
 RULE = ("two streams. (1) configs: random ASA configs built from a structured description: an alias table of 'name A.B.C.D N' "
         "lines (redefinitions, optional trailing description), 1..9 'object-group network' blocks forming an acyclic "
         "reference graph of depth 0..4 (each group has a level; group-object members point to strictly lower levels, also "
@@ -34,6 +34,7 @@ LEVEL_NOTE = ("Trusted: Lean kernel; axioms propext/Classical.choice/Quot.sound 
               "token matchers standing in for the five regular expressions of the source; model of int() restricted to ASCII. "
               "Proved about the model, measured against the code. 'lt 1' and 'gt 65535' (empty denotation) are rejected by the "
               "code; the theorems state that and the oracle accepts either an empty list or a rejection there.")
+LEVEL_NOTE += (" " + "regexes_as_modelled (Ccp.RxC20): the five ASA regexes (_RE_NAMES, _RE_OBJNET, _RE_OBJACL of ConfigList as used by the three asa_* tables, the name regex of ASAObjGroupNetwork.__init__, _RE_NETOBJECT), _RE_NAMEOBJECT, and the keyword / separator tests of L4Object.__init__, network_strings and the two is_object_for are re-read from /repo's AST on every run and proved equal to the literals the token matchers of Model/Asa.lean were written for.")
 EXHAUSTIVE = {"quick": False, "thorough": False}
 ASSUMPTIONS = [
     "regexes _RE_NAMES, _RE_OBJNET, _RE_OBJACL, _RE_NETOBJECT and the group-name regex behave like the token matchers of Model/Asa.lean (\\s = str.isspace, \\d = ASCII digit)",
